@@ -7,6 +7,7 @@ import Mathlib.Tactic.Linarith
 import WebpVerif.Lemmas.EncHuffCodes
 import WebpVerif.Lemmas.PrefixFree
 import WebpVerif.Lemmas.HuffShort
+import WebpVerif.Lemmas.ColorIndex
 
 /-!
 # C01 — VP8L decoding matches the lossless specification for every valid stream
@@ -256,6 +257,80 @@ theorem huffman_tree_is_spec (ls : List Nat) (hall : ∀ l ∈ ls, l ≤ 15) (hn
 -- on every run; kernel evaluation of a 12-bit code takes minutes)
 example : (match Huff.build [1, 2, 3, 3] with | .ok _ => true | _ => false) = true ∧
     Huff.readSym (Huff.build [1, 2, 3, 3]) [1, 1, 0, 1, 0, 1, 1, 1, 1, 1, 1, 1, 1, 1, 1, 1] = some (2, [1, 0, 1, 1, 1, 1, 1, 1, 1, 1, 1, 1, 1]) := by
+  decide +kernel
+
+/-! ### the in-place inverse colour-indexing transform -/
+
+/-- the pixel the specification defines (the body of the loop of `VP8L.inverseIndexing`,
+    Spec/Lossless.lean): the table entry selected by the bits of the packed index pixel -/
+def specIndexPixel (table : Array Nat) (w : Nat) (img : Array Nat) (x y : Nat) : Nat :=
+  let wb := VP8L.indexBits table.size
+  let pw := VP8L.subSize w wb
+  let bpp := 8 / 2 ^ wb
+  let packed := VP8L.ch (img[y * pw + x / 2 ^ wb]!) 1
+  table.getD ((packed / 2 ^ (bpp * (x % 2 ^ wb))) % 2 ^ bpp) 0
+
+/-- **In place = specification.**  `CIdx.apply` models `apply_color_indexing_transform`, which for
+    palettes of up to 16 colours expands the packed index image (the first `⌈w/2^wb⌉·h` pixels of
+    the `w·h` buffer) inside that same buffer, last row first and right to left.  For EVERY
+    palette of 1..16 colours, every width, height and buffer content: each pixel of the result is
+    the pixel the specification computes from the ORIGINAL packed image - no group is ever written
+    over a packed pixel that is still to be read, nor over a group written before. -/
+theorem color_indexing_in_place (pal : Array Nat) (w h : Nat) (d : Array Nat) (hts : 1 ≤ pal.size ∧ pal.size ≤ 16)
+    (hw : 1 ≤ w) (hsz : d.size = w * h) (x y : Nat) (hx : x < w) (hy : y < h) :
+    (CIdx.apply pal pal.size w h d)[y * w + x]! = specIndexPixel pal w d x y := by
+  unfold CIdx.apply specIndexPixel VP8L.indexBits VP8L.subSize
+  rw [if_neg (by omega)]
+  have hentry : ∀ bpe i j, CIdx.entry pal pal.size bpe i j = pal.getD (i / 2 ^ (bpe * j) % 2 ^ bpe) 0 := by
+    intro bpe i j
+    unfold CIdx.entry
+    simp only
+    rw [Nat.mul_comm j bpe]
+    by_cases hk : i / 2 ^ (bpe * j) % 2 ^ bpe < pal.size
+    · rw [if_pos hk, Array.getElem!_eq_getD, Array.getD_eq_getD_getElem?, Array.getD_eq_getD_getElem?,
+        Array.getElem?_eq_getElem hk]
+      rfl
+    · rw [if_neg hk, Array.getD_eq_getD_getElem?, Array.getElem?_eq_none (by omega)]
+      rfl
+  have hgreen : ∀ p, CIdx.green p = VP8L.ch p 1 := fun p => by unfold CIdx.green VP8L.ch; rfl
+  by_cases h2 : pal.size ≤ 2
+  · simp only [h2, if_true]
+    have g : CIdx.Geo (2 ^ 3) w ((w + 2 ^ 3 - 1) / 2 ^ 3) :=
+      { hP := by decide, hiw := by omega, hlo := by omega, hhi := by omega }
+    rw [CIdx.run_spec pal pal.size _ _ w _ h d g hsz y x hy hx, hentry, hgreen]
+  · simp only [h2, if_false]
+    by_cases h4 : pal.size ≤ 4
+    · simp only [h4, if_true]
+      have g : CIdx.Geo (2 ^ 2) w ((w + 2 ^ 2 - 1) / 2 ^ 2) :=
+        { hP := by decide, hiw := by omega, hlo := by omega, hhi := by omega }
+      rw [CIdx.run_spec pal pal.size _ _ w _ h d g hsz y x hy hx, hentry, hgreen]
+    · simp only [h4, if_false]
+      have h16 : pal.size ≤ 16 := hts.2
+      simp only [h16, if_true]
+      have g : CIdx.Geo (2 ^ 1) w ((w + 2 ^ 1 - 1) / 2 ^ 1) :=
+        { hP := by decide, hiw := by omega, hlo := by omega, hhi := by omega }
+      rw [CIdx.run_spec pal pal.size _ _ w _ h d g hsz y x hy hx, hentry, hgreen]
+
+/-- palettes of more than 16 colours: one index per pixel, mapped where it stands -/
+theorem color_indexing_direct (pal : Array Nat) (w h : Nat) (d : Array Nat) (hts : 16 < pal.size)
+    (i : Nat) (hi : i < d.size) :
+    (CIdx.apply pal pal.size w h d)[i]! = pal.getD (VP8L.ch d[i]! 1) 0 := by
+  unfold CIdx.apply
+  rw [if_pos hts]
+  have hgreen : ∀ p, CIdx.green p = VP8L.ch p 1 := fun p => by unfold CIdx.green VP8L.ch; rfl
+  rw [Array.getElem!_eq_getD, Array.getD_eq_getD_getElem?, Array.getElem?_map, Array.getElem?_eq_getElem hi]
+  simp only [Option.map_some, Option.getD_some]
+  rw [hgreen, Array.getElem!_eq_getD (xs := d), Array.getD_eq_getD_getElem? (xs := d), Array.getElem?_eq_getElem hi]
+  simp only [Option.getD_some]
+  by_cases hk : VP8L.ch d[i] 1 < pal.size
+  · rw [if_pos hk, Array.getElem!_eq_getD, Array.getD_eq_getD_getElem?, Array.getD_eq_getD_getElem?]
+    rfl
+  · rw [if_neg hk, Array.getD_eq_getD_getElem?, Array.getElem?_eq_none (by omega)]
+    rfl
+
+-- non-vacuity: a 5x2 image with a 3-colour palette (2 bits per index, 4 pixels per packed pixel)
+example : (List.range 10).map (fun i => (CIdx.apply #[7, 8, 9] 3 5 2 #[0x1b00, 0x0200, 0x2400, 0x0100, 99, 99, 99, 99, 99, 99])[i]!) =
+    (List.range 10).map (fun i => specIndexPixel #[7, 8, 9] 5 #[0x1b00, 0x0200, 0x2400, 0x0100, 99, 99, 99, 99, 99, 99] (i % 5) (i / 5)) := by
   decide +kernel
 
 end C01
